@@ -41,8 +41,10 @@ PROPS["C08"] = {
 
 def tree_parts(q, t):
     return [
-        opf("map", ["harness/cont_tree.cpp"], q, t, bin="cont_map", cflags=["-DMULTI=0", "-DSTRUCT_ORACLE", "-fno-access-control"]),
-        opf("multimap", ["harness/cont_tree.cpp"], q, t, bin="cont_multimap", cflags=["-DMULTI=1", "-DSTRUCT_ORACLE", "-fno-access-control"]),
+        opf("map", ["harness/cont_tree.cpp"], q, t, bin="cont_map", cflags=["-DMULTI=0", "-DSTRUCT_ORACLE", "-fno-access-control"],
+            fallback_cflags=["-DMULTI=0"], fallback_note="without the AVL structure oracle, which reads private members that this tree does not have"),
+        opf("multimap", ["harness/cont_tree.cpp"], q, t, bin="cont_multimap", cflags=["-DMULTI=1", "-DSTRUCT_ORACLE", "-fno-access-control"],
+            fallback_cflags=["-DMULTI=1"], fallback_note="without the AVL structure oracle, which reads private members that this tree does not have"),
     ]
 
 PROPS["C01"] = {
@@ -249,8 +251,8 @@ PROPS["C10"] = {
     "rule": "case = pool configuration, 1-3 client programs, 6 schedules (40 when replaying) cycling through uniform / few-preemptions / PCT / round-robin strategies. Oracle: when join / destructor / conversion / restart returns the call has run exactly once with the given arguments, the converted value is the function's return value, isAborted() only after abort(), otherwise isFinished(); at the end every call ran exactly once; no deadlock and no livelock (a thread polling for ever while nobody else can run, e.g. on the pool-creation spin lock); nothing leaked after the pool is destroyed. 20% of the cases are grow / idle past the retirement time / start-together scenarios over several rounds. "
             "Non-trivial = (>=2 clients AND queue capacity <=2 AND >=4 starts: pushes meet a full queue and workers race clients) OR a case that sleeps past the idle-worker retirement time between starts; distinct by case text hash.",
     "assumptions": ["started functions terminate and do not wait on other futures", "a Future object is used by one client thread"],
-    "parts": [opf("future", ["harness/c10_future.cpp"], {"cases": 5000, "maxsize": 22}, {"cases": 40000, "maxsize": 24, "workers": 16}, flavour="sched", cflags=["-fno-access-control"], deps=["harness/vs_common.hpp"]),
-              rel(opf("future", ["harness/c10_future.cpp"], {"cases": 5000, "maxsize": 22}, {"cases": 40000, "maxsize": 24, "workers": 16}, flavour="sched", cflags=["-fno-access-control"], deps=["harness/vs_common.hpp"], bin="C10_future"))],
+    "parts": [opf("future", ["harness/c10_future.cpp"], {"cases": 5000, "maxsize": 22}, {"cases": 40000, "maxsize": 24, "workers": 16}, flavour="sched", cflags=["-fno-access-control"], deps=["harness/vs_common.hpp"], fallback_cflags=["-DC10_GLOBAL_POOL_ONLY"], fallback_note="the harness cannot install its own ThreadPool in this tree: every case uses the shared pool"),
+              rel(opf("future", ["harness/c10_future.cpp"], {"cases": 5000, "maxsize": 22}, {"cases": 40000, "maxsize": 24, "workers": 16}, flavour="sched", cflags=["-fno-access-control"], deps=["harness/vs_common.hpp"], bin="C10_future", fallback_cflags=["-DC10_GLOBAL_POOL_ONLY"], fallback_note="the harness cannot install its own ThreadPool in this tree: every case uses the shared pool"))],
 }
 
 
